@@ -200,7 +200,12 @@ impl StreamInterceptor for Tamper {
         st.bytes += data.len();
         st.max_chunk = st.max_chunk.max(data.len());
         for site in &self.sites {
-            if site.chan != key {
+            let same_chan = if site.chan.gate == "*" {
+                site.chan.kind == key.kind && site.chan.src == key.src && site.chan.dst == key.dst && site.chan.shard == key.shard
+            } else {
+                site.chan == key
+            };
+            if !same_chan {
                 continue;
             }
             let hit = match site.stream_off {
